@@ -274,4 +274,31 @@ fn writer(rep: &mut Report, v: &Value) {
             (ok, _) => Err(format!("returned ok={ok}, specification says {outcome}")),
         }
     }), v);
+    // the checked single-slot writer of an uninitialised buffer: inside the buffer it writes that
+    // slot, outside it reports an error (and writes nothing)
+    if il == 0 {
+        macro_rules! set_cell {
+            ($O:ty, $cell:expr) => {
+                judge(rep, "uninit.set", &format!("uninit.set|buffer={bl}"), $cell, catch(|| {
+                    let mut u = <$O as Vec1<f64>>::uninit(bl);
+                    for i in 0..bl {
+                        if let Err(e) = u.set(i, 300.0 + i as f64) {
+                            return Err(format!("set({i}) rejected inside a buffer of {bl}: {e}"));
+                        }
+                    }
+                    for i in bl..bl + 2 {
+                        if u.set(i, -1.0).is_ok() {
+                            return Err(format!("set({i}) accepted outside a buffer of {bl}"));
+                        }
+                    }
+                    let out: Vec<f64> = unsafe { u.assume_init() }.into_iter().collect();
+                    let want: Vec<f64> = (0..bl).map(|i| 300.0 + i as f64).collect();
+                    if out != want { Err(format!("buffer holds {out:?}, want {want:?}")) } else { Ok(()) }
+                }), v);
+            };
+        }
+        set_cell!(Vec<f64>, "Vec<MaybeUninit<f64>>");
+        set_cell!(VecDeque<f64>, "VecDeque<MaybeUninit<f64>>");
+        set_cell!(Array1<f64>, "Array1<MaybeUninit<f64>>");
+    }
 }
